@@ -33,6 +33,7 @@ def run(chk):
     # W1: tabulation class
     I, found = W.tabulation_output(P, "LAMMPS_PairTabulation", elem)
     W.compare_trees(chk, "C01.W1", "LAMMPS_PairTabulation.write", I, found, expect)
+    W.second_write(chk, "C01.W1", "LAMMPS_PairTabulation.write", I, expect)
     calls = I.call_sites
 
     # W2: writePotentials('LAMMPS', potentialList, cutoff, gridPoints, out)
